@@ -76,8 +76,27 @@ def getChannelAuthCap : List String :=
    "set:caps=ChannelAuthenticationCapabilities(rsp)",
    "return:caps"]
 
-/-- authentication type = the chosen one, user name padded to 16 bytes with NUL when one is configured -/
+/-- authentication type = the chosen one, user name (a `str` is encoded first, `bytes` are taken as they are)
+padded to 16 BYTES with NUL when one is configured (fixes/C06-7) -/
 def getSessionChallenge : List String :=
+  ["set:req=create_request_by_name('GetSessionChallenge')",
+   "set:req.target=self.host_target",
+   "set:req.authentication.type=session.auth_type",
+   "if:session._auth_username",
+   "set:user_name=session._auth_username",
+   "if:isinstance(user_name,str)",
+   "set:user_name=user_name.encode()",
+   "end",
+   "set:req.user_name=user_name.ljust(16,b'\\x00')",
+   "end",
+   "call:send_and_receive",
+   "expr:check_rsp_completion_code(rsp)",
+   "return:rsp"]
+
+/-- as shipped: the name is padded with a `str` fill character - the same 16 bytes for an ASCII `str` name, a
+TypeError for a `bytes` name (`Model/SessionCred.lean`, `Var.bytesUser = false`; the harness probes which of the
+two the working tree has) -/
+def getSessionChallengeAsShipped : List String :=
   ["set:req=create_request_by_name('GetSessionChallenge')",
    "set:req.target=self.host_target",
    "set:req.authentication.type=session.auth_type",
